@@ -44,7 +44,7 @@ def run(ctx):
     for ds in range(ctx.scale(1, 3)):
         ctx.seed = seed0 + ds
         try:
-            recs += sched_run.run_stream(ctx, ["obs_sem"], nvariants=1,
+            recs += sched_run.run_stream(ctx, ["obs_sem"], nvariants=1, extra=__import__("pool").REGRESSION,
                                          opts={"depth": 2, "n_inputs": 3, "depth2_procs": 3, "depth2_attempts": 12})
         finally:
             ctx.seed = seed0
